@@ -3025,7 +3025,7 @@ func (dsc *dataStoreCommand) load(l lane.Lane, path string) (err error) {
 	return
 }
 
-func (dsc *dataStoreCommand) sort(sourceKeyName, byPattern, destKeyName string, startAt, count int, getPatterns []string, limit, desc, alpha bool) (output respValue) {
+func (dsc *dataStoreCommand) sort(sourceKeyName, byPattern string, by bool, destKeyName string, store bool, startAt, count int, getPatterns []string, limit, desc, alpha bool) (output respValue) {
 	dsc.lock()
 	defer dsc.unlock()
 
@@ -3044,6 +3044,14 @@ func (dsc *dataStoreCommand) sort(sourceKeyName, byPattern, destKeyName string, 
 	} else {
 		sk, objExists := dsc.getKeyObjectUnlocked(sourceKeyName)
 		if !objExists {
+			if store {
+				// nothing to store: the destination is removed
+				if dsc.ds.data.remove(destKeyName) {
+					dsc.setDirty()
+				}
+				output.data = respInt(0)
+				return
+			}
 			output = nativeValueToResp([]any{})
 			return
 		}
@@ -3065,7 +3073,27 @@ func (dsc *dataStoreCommand) sort(sourceKeyName, byPattern, destKeyName string, 
 	}
 
 	dontSort := false
-	if byPattern != "" {
+	fromSet := list == nil
+	if by && !strings.Contains(byPattern, "*") && fromSet && store {
+		// a set has no order of its own: what is stored is sorted by the elements, as Redis does
+		by = false
+		alpha = true
+	}
+	if !by {
+		// without BY the elements themselves are compared
+		for idx, val := range vals {
+			val.sortByStr = val.data
+			if !alpha {
+				f64, parseErr := strconv.ParseFloat(val.data, 64)
+				if parseErr != nil {
+					output.data = respErrorString("ERR One or more scores can't be converted into double")
+					return
+				}
+				val.sortByFloat = f64
+			}
+			vals[idx] = val
+		}
+	} else {
 		if !strings.Contains(byPattern, "*") {
 			dontSort = true
 		} else {
@@ -3092,32 +3120,23 @@ func (dsc *dataStoreCommand) sort(sourceKeyName, byPattern, destKeyName string, 
 	}
 
 	if !dontSort {
-		// pick a sorting strategy
-		if alpha {
-			if !desc {
-				// asc alpha
-				sort.Slice(vals, func(i, j int) bool {
-					return vals[i].sortByStr < vals[j].sortByStr
-				})
-			} else {
-				// desc alpha
-				sort.Slice(vals, func(i, j int) bool {
-					return vals[j].sortByStr < vals[i].sortByStr
-				})
+		// equal scores are ordered by the elements themselves, as Redis does
+		less := func(a, b sortVal) bool {
+			if alpha {
+				if a.sortByStr != b.sortByStr {
+					return a.sortByStr < b.sortByStr
+				}
+			} else if a.sortByFloat != b.sortByFloat {
+				return a.sortByFloat < b.sortByFloat
 			}
-		} else {
-			if !desc {
-				// asc numeric
-				sort.Slice(vals, func(i, j int) bool {
-					return vals[i].sortByFloat < vals[j].sortByFloat
-				})
-			} else {
-				// desc numeric
-				sort.Slice(vals, func(i, j int) bool {
-					return vals[j].sortByFloat < vals[i].sortByFloat
-				})
-			}
+			return a.data < b.data
 		}
+		sort.SliceStable(vals, func(i, j int) bool {
+			if desc {
+				return less(vals[j], vals[i])
+			}
+			return less(vals[i], vals[j])
+		})
 	}
 
 	if limit {
@@ -3173,7 +3192,15 @@ func (dsc *dataStoreCommand) sort(sourceKeyName, byPattern, destKeyName string, 
 		}
 	}
 
-	if destKeyName != "" {
+	if store {
+		// the destination is replaced, whatever it held; an empty result leaves no key behind
+		if dsc.ds.data.remove(destKeyName) {
+			dsc.setDirty()
+		}
+		if len(a) == 0 {
+			output.data = respInt(0)
+			return
+		}
 		list := dsc.newListUnlocked(destKeyName)
 
 		for _, element := range a {
